@@ -8,7 +8,7 @@ import checks.c14 as c
 
 DESC = {
  "element_copy_throws_in_fill_loop": "CO_Tree::CO_Tree(Iterator, n) (CO_Tree_templates.hh) has no handler around its fill loop: when a copy `new(&(*root)) data_type(*i)` throws, the constructor exits without ~CO_Tree(), so indexes[], data[] and every element built so far stay allocated (2 operator-new blocks + one GMP block per element). Reached through Sparse_Row(const Dense_Row&), Sparse_Row(y, sz, capacity), Sparse_Row::linear_combine, Linear_Expression conversions, i.e. from most public operations of polyhedra, grids, MIP and PIP. Lean: C14.no_leak_cotree_iter_fails / cotree_iter_leaks_exactly",
- "constraint_copies_not_deleted_when_constructor_throws": "MIP_Problem constructors (dim,cs,obj,mode), (dim,first,last,...) and the copy constructor call add_constraint_helper from the constructor body: when a later `new Constraint(c)` throws, ~MIP_Problem() does not run and the Constraint objects already pushed into input_cs (a vector of raw pointers) are never deleted. Also reached through the temporary MIP problems of BD_Shape / Octagonal_Shape / Box ::max_min, bounds, relation_with. Lean: C14.no_leak_mip_ctor_fails / no_leak_mip_copy_fails",
+ "constraint_copies_not_deleted_when_constructor_throws": "MIP_Problem(dim, cs, obj, mode) and the copy constructor call add_constraint_helper from the constructor body without the handler the two iterator constructors have: when a later `new Constraint(c)` throws, ~MIP_Problem() does not run and the Constraint objects already pushed into input_cs (a vector of raw pointers) are never deleted. Also reached through the temporary MIP problems of BD_Shape / Octagonal_Shape / Box ::max_min, bounds, relation_with. Lean: C14.no_leak_mip_ctor_fails / no_leak_mip_copy_fails",
  "begin_ne_end_on_empty_tree": "CO_Tree::operator= = destroy(); init(); copy_data_from(): when an allocation of init() throws, refresh_cached_iterators() is not reached: the (now empty) tree keeps cached end iterators into the array destroy() released, so begin() != end() on an empty tree and any iteration dereferences freed memory. Lean: C14.valid_cotree_assign_fails",
  "double_free_or_unknown_block": "a block is released twice (or a block that is not live is released) while unwinding or when the objects are destroyed afterwards",
  "const_object_damaged_by_fault": "a const object (receiver of a const member function, or a const argument) is left invalid (OK() fails) or with a different value when the lazy update it triggered is interrupted",
@@ -25,8 +25,10 @@ acc = collections.OrderedDict()
 def report(f, kind, extra):
     key = (f.site, f.tags[0]) if not f.site.startswith("reject:") else (f.site, f.tags[0])
     e = acc.setdefault(key, {"count": 0, "tags": f.tags, "what": f.what, "lines": [], "states": set(), "modes": set(), "fns": collections.Counter()})
+    e.setdefault("ops", collections.Counter())
     for t in f.tags:
         if t.startswith("in_"): e["fns"][t[3:]] += 1
+        if t.startswith("op_"): e["ops"][t[3:]] += 1
     e["count"] += 1; e["modes"].add(kind)
     for t in f.tags:
         if t.startswith("state_"): e["states"].add(t)
@@ -77,11 +79,13 @@ for (site, tag), e in acc.items():
     d = DESC.get(tag, tag.replace("_", " "))
     w = e["lines"][0].split()
     wit = {"scenario": w[3] if len(w) > 3 else "?", "mode": w[1] if len(w) > 1 else "?", "journal": e["lines"][0],
-           "occurrences_in_sweeps": e["count"], "modes": sorted(e["modes"]), "interrupted_functions": dict(e["fns"].most_common(12))}
+           "occurrences_in_sweeps": e["count"], "modes": sorted(e["modes"]), "interrupted_functions": dict(e["fns"].most_common(12)), "operations": dict(e.get("ops", collections.Counter()).most_common(12))}
     m = re.search(r" k=(-?\d+)", e["lines"][0])
     if m: wit["k"] = int(m.group(1))
     what = d if tag in ("element_copy_throws_in_fill_loop", "constraint_copies_not_deleted_when_constructor_throws", "begin_ne_end_on_empty_tree") \
-        else "an allocation failure / abandonment inside a member function of %s (%s): %s" % (site, ", ".join(k.split("::")[-1] for k, _ in e["fns"].most_common(6)), d)
+        else "%s operations (%s): an allocation failure / abandonment inside %s (%s): %s" % (
+            site.split("@")[-1], ", ".join(k for k, _ in e.get("ops", collections.Counter()).most_common(4)), site.split("@")[0],
+            ", ".join(k.split("::")[-1] for k, _ in e["fns"].most_common(5)), d)
     entries.append({"site": site, "predicate": tag, "what": what, "witness": wit})
 
 SPECIAL = {
